@@ -776,7 +776,8 @@ func seq(n int) []int {
 func TestCheck(t *testing.T) {
 	r := runner.Start("C10", "exploration")
 	deadline := r.Deadline(85*time.Second, 11*time.Minute)
-	debug.SetGCPercent(800) // many short-lived requests, tiny live heap
+	debug.SetGCPercent(200)          // many short-lived requests, small live heap
+	debug.SetMemoryLimit(1536 << 20) // soft limit: the machine is shared with other checks
 
 	ip, ok := calibrate(r)
 	if !ok {
